@@ -203,15 +203,33 @@ func (u *U) ITE(c Ref, a, b *E) *E {
 	if isBoolE(a) && isBoolE(b) {
 		return u.Bool(u.bdd.ITE(c, u.ToBool(a), u.ToBool(b)))
 	}
-	// ite(c, ite(c, x, _), y) = ite(c, x, y)
-	if a.Op == "ite" && a.B == c {
-		a = a.Args[0]
+	// resolve nested selectors decided by c: under c the branch a is used,
+	// under !c the branch b
+	for a.Op == "ite" {
+		if u.bdd.Implies(c, a.B) {
+			a = a.Args[0]
+		} else if u.bdd.Implies(c, u.bdd.Not(a.B)) {
+			a = a.Args[1]
+		} else {
+			break
+		}
 	}
-	if b.Op == "ite" && b.B == c {
-		b = b.Args[1]
+	nc0 := u.bdd.Not(c)
+	for b.Op == "ite" {
+		if u.bdd.Implies(nc0, b.B) {
+			b = b.Args[0]
+		} else if u.bdd.Implies(nc0, u.bdd.Not(b.B)) {
+			b = b.Args[1]
+		} else {
+			break
+		}
 	}
 	if a == b {
 		return a
+	}
+	// canonical orientation: ite(c,a,b) and ite(!c,b,a) are the same expression
+	if nc := u.bdd.Not(c); nc < c {
+		c, a, b = nc, b, a
 	}
 	t := a.Typ
 	if t == nil {
